@@ -427,3 +427,32 @@ def c06f(ctx):
     ok = bool(lk) and all(any(g2.reaches_avoiding(n, l) for l, _ in lk) for n, _ in un)
     ctx.check(ok, 'FileCache._store_single_color_tile:unlink-then-link', 'the only removal of a tile location outside _store is the unlink that '
               'directly precedes the creation of the single-colour link (the window the statement allows)', sc)
+
+
+@rule('C06.g', floor=8)
+def c06g(ctx):
+    """a tile file appears under its name complete, and what a bundle writer appends reaches the file before the index points at it:
+    the storage modules write only through the routines judged above (write_atomic, the buffered file object of a bundle inside its
+    readwrite context).  They do not write through a raw descriptor (os.write / os.pwrite / fileno() -- a positional write overtakes
+    the data still sitting in the buffer of the file object: the index entry is on disk before the record it points at), and they do
+    not copy a file into its final place (shutil.copy* creates the name first and fills it afterwards)"""
+    RAW = ('os.write', 'os.pwrite', 'os.writev', 'os.pwritev', 'os.sendfile', 'os.truncate', 'os.ftruncate')
+    COPY = ('shutil.copyfile', 'shutil.copy', 'shutil.copy2', 'shutil.copyfileobj', 'shutil.move', 'copyfile', 'copy2', 'copyfileobj')
+    n = 0
+    for rel, mod in sorted(ctx.repo.modules.items()):
+        if not (rel.startswith('mapproxy/cache/') or rel == 'mapproxy/util/fs.py') or '/test/' in rel:
+            continue
+        n += 1
+        bad = []
+        for fn in ctx.repo.fns_in(rel + ':'):
+            for x in fn.walk():
+                if isinstance(x, ast.Call):
+                    nm = call_name(x) or ''
+                    if nm in RAW or nm in COPY:
+                        bad.append('%s in %s' % (nm, fn.short))
+                    elif isinstance(x.func, ast.Attribute) and x.func.attr == 'fileno':
+                        bad.append('%s in %s' % (unparse(x), fn.short))
+        ctx.check(not bad, '%s:writes-through-the-judged-routines' % rel.split('/')[-1], 'no raw descriptor write and no copy into place', (rel, 1),
+                  fail='%s writes a storage file outside the judged routines: %s' % (rel, '; '.join(sorted(set(bad)))[:200]))
+    if n < 8:
+        raise Undecided('only %d storage modules found' % n)
